@@ -239,6 +239,20 @@ def topdown_predictor(n_nodes, anchor, c_scale, i_scale, c_max_stride, i_max_str
     return p
 
 
+def topdown_gt_predictor(n_nodes, anchor, i_scale, i_max_stride, i_stride, sigma, crop, max_hw, refinement, batch, skeleton, peak_threshold=0.2):
+    """TopDownPredictor with only the centred-instance model: centroids are taken from the labelled instances."""
+    from sleap_nn.inference.predictors import TopDownPredictor
+
+    icfg = _cfg("centered_instance", {"confmaps": {"part_names": None, "anchor_part": None, "sigma": sigma, "output_stride": i_stride}}, i_scale, i_max_stride, max_hw[0], max_hw[1], crop_hw=[crop, crop])
+    p = TopDownPredictor(
+        centroid_config=None, confmap_config=icfg, centroid_model=None, confmap_model=IdealCentered(n_nodes, sigma, i_stride, crop_hw=(crop, crop)),
+        centroid_backbone_type=None, centered_instance_backbone_type="unet", skeletons=[skeleton], peak_threshold=peak_threshold,
+        integral_refinement=refinement, integral_patch_size=5, batch_size=batch, preprocess_config=None, anchor_ind=anchor,
+    )
+    p._initialize_inference_model()
+    return p
+
+
 def bottomup_predictor(n_nodes, edges, scale, max_stride, cms_stride, paf_stride, sigma, paf_sigma, link, max_hw, refinement, batch, skeleton, max_instances=None, peak_threshold=0.2, **scorer):
     from sleap_nn.inference.predictors import BottomUpPredictor
 
